@@ -56,6 +56,39 @@ CAUSES = {"n": "", "i": "<item-not-found xmlns='urn:ietf:params:xml:ns:xmpp-stan
           "o": "<unexpected-request xmlns='urn:ietf:params:xml:ns:xmpp-stanzas'/>"}
 
 
+def parse_ul(text):
+    """strtoul(text, &end, 10) with *end == 0 as the library's string_to_ul(): the value, or None if the text is not
+    entirely a (blank-led, optionally signed) decimal number."""
+    m = re.match(r"^[ \t\n\v\f\r]*([+-]?)([0-9]*)$", text)
+    if not m or (m.group(2) == "" and text != ""):
+        return None
+    v = int(m.group(2) or "0")
+    if v > U64MAX:
+        v = U64MAX
+    if m.group(1) == "-":
+        v = (-v) % (1 << 64)
+    return v
+
+
+def h_raw(h, legacy_bad):
+    """attribute text of an h given as int / "bad" (legacy) / any other str (raw text)"""
+    if isinstance(h, int):
+        return str(h)
+    return legacy_bad if h == "bad" else h
+
+
+def h_eff(h, legacy_bad="x1"):
+    """what a well-behaved parser makes of it: the number, or None when it is not a number"""
+    if h is None or h == "missing":
+        return None
+    if isinstance(h, int):
+        return h
+    return parse_ul(h_raw(h, legacy_bad))
+
+
+MALFORMED_H = ["3x", "2 ", "4.0", "1e3", " 2", "+2", "0x2", "1x", "2x", "5 5", "", "3\t"]
+
+
 def item_xml(it, serial=0):
     k = it[0]
     if k == "st":
@@ -71,17 +104,17 @@ def item_xml(it, serial=0):
     if k == "a":
         if it[1] == "missing":
             return "<a xmlns='%s'/>" % NS_SM
-        return "<a xmlns='%s' h='%s'/>" % (NS_SM, "12x" if it[1] == "bad" else it[1])
+        return "<a xmlns='%s' h='%s'/>" % (NS_SM, h_raw(it[1], "12x"))
     if k == "en":
         return "<enabled xmlns='%s'%s%s/>" % (NS_SM, (" id='%s'" % it[2]) if it[2] is not None else "",
                                               " resume='true'" if it[1] else "")
     if k == "re":
         h = it[2]
         return "<resumed xmlns='%s'%s%s/>" % (NS_SM, (" previd='%s'" % it[1]) if it[1] is not None else "",
-                                              "" if h is None else (" h='%s'" % ("x1" if h == "bad" else h)))
+                                              "" if h is None else (" h='%s'" % h_raw(h, "x1")))
     if k == "fa":
         h = it[2]
-        return "<failed xmlns='%s'%s>%s</failed>" % (NS_SM, "" if h is None else (" h='%s'" % ("x1" if h == "bad" else h)),
+        return "<failed xmlns='%s'%s>%s</failed>" % (NS_SM, "" if h is None else (" h='%s'" % h_raw(h, "x1")),
                                                       CAUSES[it[1]])
     if k == "so":
         return "<foo xmlns='%s'/>" % NS_SM
@@ -101,15 +134,20 @@ def item_model(it):
     if k == "r":
         return "r"
     if k == "a":
-        return "a=%s" % it[1]
+        if it[1] == "missing":
+            return "a=missing"
+        v = h_eff(it[1], "12x")
+        return "a=bad" if v is None else "a=%d" % min(v, (1 << 62) - 1)
     if k == "en":
         return "en=%d=%s" % (1 if it[1] else 0, hx(it[2]) if it[2] is not None else "-")
     if k == "re":
         h = it[2]
-        return "re=%s=%s" % (hx(it[1]) if it[1] is not None else "-", "-" if h in (None, "bad") else h)
+        v = h_eff(h)
+        return "re=%s=%s" % (hx(it[1]) if it[1] is not None else "-", "-" if v is None else min(v, (1 << 62) - 1))
     if k == "fa":
         h = it[2]
-        return "fa=%s=%s" % (it[1], "-" if h in (None, "bad") else h)
+        v = h_eff(h)
+        return "fa=%s=%s" % (it[1], "-" if v is None else min(v, (1 << 62) - 1))
     if k == "so":
         return "so"
     raise ValueError(it)
@@ -118,6 +156,7 @@ def item_model(it):
 # ------------------------------------------------------------------------------------------------
 # ops: ("send", text) ("tx", [items]) ("rx", [items]) ("rxend",) ("rxclose",) ("rxreset",) ("run",)
 #      ("connect", cut) with cut in (None, 2, 4, 6) = number of prefix runs executed   ("dump",)
+#      ("poke", sent|None, handled|None) smpoke: the harness sets the SM counters (model: CPoke)
 #      ("onconnect", [texts]) what the application's connection handler sends on CONNECT (<= 3 short stanzas)
 # symbolic ops of the honest stream are resolved to these before a line is produced.
 # ------------------------------------------------------------------------------------------------
@@ -166,6 +205,8 @@ def op_sim(op, serial):
         return ["dumpq"]
     if k == "onconnect":
         return ["onconnect " + (",".join("send:" + hx(t) for t in op[1]) if op[1] else "-")]
+    if k == "poke":
+        return ["smpoke %s %s" % ("-" if op[1] is None else op[1], "-" if op[2] is None else op[2])]
     raise ValueError(op)
 
 
@@ -191,6 +232,8 @@ def op_model(op):
         return ["D"]
     if k == "onconnect":
         return ["O " + (",".join(hx(t) for t in op[1]) if op[1] else "-")]
+    if k == "poke":
+        return ["P %s %s" % ("-" if op[1] is None else op[1], "-" if op[2] is None else op[2])]
     raise ValueError(op)
 
 
@@ -416,6 +459,7 @@ class Session:
         self.recv = []            # stanzas counted, in order (cut back to h when the server reports <resumed h>/<failed h>)
         self.acked = 0            # highest h this server has reported for the session
         self.out = 0              # stanzas sent to the client since <enabled/>
+        self.base = 0             # number of the first stanza of `recv` (non-zero only after `smpoke`)
         self.alive = True         # may still be resumed
 
 
@@ -606,6 +650,14 @@ class ServerSim:
             return
         if k == "rxend":
             self.stream_closed = True        # the server closes the stream: the session is over
+        if k == "poke":
+            s = self.sess
+            if self.sm_on and s is not None and s.established and s.alive:
+                if op[2] is not None:
+                    s.out = op[2]
+                if op[1] is not None:
+                    s.base = op[1] - len(s.recv)
+            return
         if k == "rx":
             for it in op[1]:
                 self.server_sends(it)
@@ -637,13 +689,13 @@ class ServerSim:
                 v.dishonest.append("<r/> outside an established SM session")
             return
         if k == "a":
-            h = it[1]
+            h = h_eff(it[1], "12x")
             if not live:
                 v.dishonest.append("<a/> outside an established SM session")
-            elif not isinstance(h, int) or not (0 <= h <= len(s.recv)):
-                v.dishonest.append("<a h=%s/> but the server has counted %d" % (h, len(s.recv)))
+            elif h is None or not (0 <= h - s.base <= len(s.recv)):
+                v.dishonest.append("<a h=%r/> but the server has counted %d" % (it[1], s.base + len(s.recv)))
             else:
-                s.acked = max(s.acked, h)
+                s.acked = max(s.acked, h - s.base)
                 v.bump("acks")
             return
         if k == "en":
@@ -663,9 +715,11 @@ class ServerSim:
             return
         if k == "re":
             old = self.find_session(self.awaiting[1]) if (self.awaiting and self.awaiting[0] == "resume") else None
-            h = it[2]
-            if old is None or it[1] != self.awaiting[1] or not isinstance(h, int) or not (old.acked <= h <= len(old.recv)):
-                v.dishonest.append("<resumed previd=%s h=%s/> is not what this server could say" % (it[1], h))
+            h = h_eff(it[2])
+            if h is not None and old is not None:
+                h -= old.base
+            if old is None or it[1] != self.awaiting[1] or h is None or not (old.acked <= h <= len(old.recv)):
+                v.dishonest.append("<resumed previd=%s h=%r/> is not what this server could say" % (it[1], it[2]))
                 return
             tail = old.recv[h:]
             old.recv = old.recv[:h]
@@ -686,17 +740,18 @@ class ServerSim:
                 return
             if self.awaiting[0] == "resume":
                 old = self.find_session(self.awaiting[1])
-                h = it[2]
+                h = h_eff(it[2])          # a text that is not a number reports nothing
                 if old is not None:
-                    if isinstance(h, int):
+                    if h is not None:
+                        h -= old.base
                         if not (old.acked <= h <= len(old.recv)):
-                            v.dishonest.append("<failed h=%s/> outside [%d,%d]" % (h, old.acked, len(old.recv)))
+                            v.dishonest.append("<failed h=%r/> outside [%d,%d]" % (it[2], old.acked, len(old.recv)))
                             return
                         old.acked = h
                     self.sess = old
                     self.close_session()
                 v.bump("failed")
-                v.bump("failed-with-h" if isinstance(it[2], int) else "failed-without-h")
+                v.bump("failed-with-h" if h is not None else ("failed-malformed-h" if it[2] is not None else "failed-without-h"))
             else:
                 if s is not None:
                     s.alive = False
@@ -726,9 +781,9 @@ class ServerSim:
         v.bump("observed-live")
         if handled != s.out % M32:
             v.c05.append(("handled-count", "client says handled=%d, the server has sent %d stanzas on the session" % (handled, s.out)))
-        if sent != len(s.recv) % M32:
-            v.c04.append(("count-out-of-step", "client sm_sent_nr=%d, the server has counted %d on this session" % (sent, len(s.recv))))
-        exp = [x % M32 for x in range(s.acked, len(s.recv))]
+        if sent != (s.base + len(s.recv)) % M32:
+            v.c04.append(("count-out-of-step", "client sm_sent_nr=%d, the server has counted %d on this session" % (sent, s.base + len(s.recv))))
+        exp = [(s.base + x) % M32 for x in range(s.acked, len(s.recv))]
         if hs != exp:
             v.c04.append(("retained", "SM queue holds h=%s, the unreported stanzas are no. %s (server reported %d of %d)"
                           % (hs[:12], exp[:12], s.acked, len(s.recv))))
@@ -807,6 +862,10 @@ def gen_honest(rng, max_reconnects=4):
     g = Gen(rng)
     ops = [g.onconnect()] + list(NEG_FIRST)
     ops += [("rx", [("en", rng.random() < 0.9, g.new_id())]), ("run",)]
+    if rng.random() < 0.2:
+        # counter values that traffic cannot reach: 10-digit h, the sign bit, the 2^32 wrap of the inbound count
+        # (the outbound count is only moved to values below the wrap: the client compares sm_h with h as plain numbers)
+        ops += [("poke", rng.choice([None, None, 999999998, 2147483646]), rng.choice([999999998, 2147483646, 4294967290]))]
     nrec = rng.randrange(1, max_reconnects + 1)
     for phase in range(nrec + 1):
         # live phase
@@ -861,7 +920,7 @@ def gen_honest(rng, max_reconnects=4):
 def reconnect_ops(rng, g, modes=None):
     sm = rng.random() < 0.93
     ops = [g.onconnect(), ("connect", None), ("rx", [("feat", sm)]), ("run",), ("run",)]
-    mode = rng.choice(modes or ["resumed", "resumed", "resumed", "failed_h", "failed", "fni", "failed_o"])
+    mode = rng.choice(modes or ["resumed", "resumed", "resumed", "failed_h", "failed", "fni", "failed_o", "failed_badh"])
     # a connection loss right after the answer: the window of the known class
     for i in range(3):
         ops += [("sym", "reply", mode, rng.choice([0, 0, 1, 1, 2, 3, 5]), rng.random() < 0.9, g.new_id())]
@@ -889,7 +948,7 @@ def resolve_sym(op, sim, rng_unused=None):
     if kind == "r":
         return [("rx", [("r",)])] if live else [("run",)]
     if kind == "ack":
-        return [("rx", [("a", max(s.acked, len(s.recv) - op[2]))])] if live else [("run",)]
+        return [("rx", [("a", s.base + max(s.acked, len(s.recv) - op[2]))])] if live else [("run",)]
     if kind == "reply":
         mode, delta, resumable, new_id = op[2], op[3], op[4], op[5]
         aw = sim.awaiting
@@ -903,11 +962,13 @@ def resolve_sym(op, sim, rng_unused=None):
             old = sim.find_session(aw[1])
             if old is None:
                 return [("rx", [("fa", "i", None)])]
-            h = max(old.acked, len(old.recv) - delta)
+            h = old.base + max(old.acked, len(old.recv) - delta)
             if mode == "resumed":
                 return [("rx", [("re", aw[1], h)])]
             if mode == "failed_h":
                 return [("rx", [("fa", "i", h)])]
+            if mode == "failed_badh":        # a text with a plausible numeric prefix: it reports nothing
+                return [("rx", [("fa", "i", "%d%s" % (max(1, h - old.base), ["x", " ", ".0", "e3", "x2"][delta % 5]))])]
             if mode == "fni":
                 return [("rx", [("fa", "f", None)])]
             if mode == "failed_o":
@@ -973,6 +1034,8 @@ def gen_adversarial(rng, nops=40):
     ops = list(NEG_FIRST) + [("rx", [("en", True, rng.choice(ids))]), ("run",)] if rng.random() < 0.8 else [("connect", None)]
 
     def rand_h():
+        if rng.random() < 0.2:
+            return rng.choice(MALFORMED_H + ["%d%s" % (rng.randrange(0, 7), rng.choice(["x", " ", ".0", "e3"]))])
         return rng.choice([0, 1, 2, 3, 4, 5, 6, 8, 10, 4294967295, 4294967296, 4294967297, 4294967290, (1 << 62) - 1, rng.randrange(0, 12)])
 
     def rand_item():
@@ -1047,6 +1110,8 @@ def scenario_key(ops):
             out.append("s%d" % len(op[1]))
         elif op[0] == "onconnect":
             out.append("oc%d" % len(op[1]))
+        elif op[0] == "poke":
+            out.append("poke%s/%s" % (op[1], op[2]))
         else:
             out.append(op[0] + (str(op[1]) if len(op) > 1 else ""))
     return " ".join(out)
@@ -1160,6 +1225,11 @@ def run_check(chk, pid):
         "(Spec/SmSpec.v honest); all other theorems hold for every history",
         "the ghost server of Spec/SmSpec.v counts a stanza when the client has written it completely while SM is on and cuts the "
         "count back to h at <resumed h> (stanzas lost in flight); it changes state at the client's protocol points (marks OG _)",
+        "`smpoke` (harness sets sm_sent_nr / sm_handled_nr directly, to reach 10-digit h and the 2^32 wrap of the inbound count) "
+        "is a command of the scripted world only (model: CPoke in `exec`); the theorems over `action` histories do not range over it, "
+        "the single-step theorems (any state) and the model/implementation comparison do; the outbound count is only poked below the "
+        "wrap (open problem: sm_h < h is a plain comparison)",
+        "a malformed h ('3x', '2 ', '4.0' ...) is 'no usable h' (strtoul with the whole text consumed is the reference: ' 2', '+2' are 2)",
         "sm_disable flag, session-establishment iq, stream features without <bind/>, user stanza handlers, xmpp_send_raw during "
         "negotiation and xmpp_conn_send_queue_drop_element (C06) are not part of the model",
     ]
